@@ -63,7 +63,8 @@ def run(ctx):
         return pc.replay(ctx, MODULE_T, kd, stride=1)
     vectors, nvec = pc.gen_vectors(ctx, kd)
     nmut = 60000 if ctx.quick else 1200000
-    run_ = pc.Run(ctx, "c02", vectors=vectors, mutations=nmut)
+    # thorough: two generated decompression bombs beyond the 1 GiB cap (about 2 GiB of memory for a few seconds each)
+    run_ = pc.Run(ctx, "c02", vectors=vectors, mutations=nmut, bombs=not ctx.quick)
     d = run_.execute()
     v, cfg = pc.judge(ctx, MODULE_T, run_.trace, kd, f"fixtures + model vectors + mutations seed={ctx.seed}", stride=run_.jobs)
     # one report per (format, kind of failure)
